@@ -65,8 +65,8 @@ def global_inventory():
         if not (name == "card_utils" or name.startswith("card_utils.")) or mod is None:
             continue
         for k, v in sorted(vars(mod).items()):
-            if k.startswith("__"):
-                continue        # (module-level names with ONE underscore are ordinary private globals: scratch lists, caches)
+            if k.startswith("_") and k != "_cards_rds":
+                continue        # private globals (a correctly keyed cache is a legitimate optimisation): judged by behaviour only
             if isinstance(v, (list, dict, set, frozenset, tuple)) and getattr(v, "__module__", None) is None:
                 inv[f"{name}.{k}"] = canon(v)
             if isinstance(v, type) and getattr(v, "__module__", "") == name:
@@ -299,8 +299,12 @@ class C16(Prop):
         out["forks"] = forks
         inv_after = global_inventory()
         # (containers of modules imported lazily in between appear as new keys: only keys present on both sides count)
-        out["globals_changed"] = sorted(k for k in set(inv_before) & set(inv_after) if inv_before[k] != inv_after[k])
-        out["globals_vs_start"] = sorted(k for k in set(self.inv0) & set(inv_after) if self.inv0[k] != inv_after[k])
+        # only the library's shared CONSTANTS count (containers that were non-empty when the library was imported: the deck,
+        # the rank / suit maps, the Action sets -- C16's and C20's statements name them); a container that starts empty
+        # and fills up is a cache, and a cache is judged by behaviour (histories, siblings, forks), not by its existence
+        const = {k for k, v in self.inv0.items() if v not in ("[]", "{}", "s{}")}
+        out["globals_changed"] = sorted(k for k in set(inv_before) & set(inv_after) & const if inv_before[k] != inv_after[k])
+        out["globals_vs_start"] = sorted(k for k in const & set(inv_after) if self.inv0[k] != inv_after[k])
         return out
 
     def request(self, case, io):
